@@ -121,9 +121,32 @@ def range_lemmas(root, var_ranges, pc, libm_aux, name):
                   else:
                       r = None
           elif n.op == 'ite':
+              c = n.args[0]
               a, b = iv.get(n.args[1].id), iv.get(n.args[2].id)
-              if a is not None and b is not None:
+
+              def never_nan(cond):
+                  # isNaN(x) / or of such, where every x has a (finite, hence NaN-free) proved interval
+                  if cond.op == 'fp.isNaN':
+                      return cond.args[0].id in iv
+                  if cond.op == 'or':
+                      return all(never_nan(x) for x in cond.args)
+                  return False
+              if never_nan(c) and b is not None:
+                  r = b                                      # the NaN-propagation branch of np.maximum / np.minimum is dead
+              elif a is not None and b is not None:
                   r = (min(a[0], b[0]), max(a[1], b[1]))
+                  if c.op == 'fp.lt' and {c.args[0].id, c.args[1].id} == {n.args[1].id, n.args[2].id}:
+                      if c.args[1].id == n.args[1].id:       # ite(x < y, y, x) = max(x, y)
+                          r = (max(a[0], b[0]), max(a[1], b[1]))
+                      else:                                  # ite(x < y, x, y) = min(x, y)
+                          r = (min(a[0], b[0]), min(a[1], b[1]))
+                      xs = {n.args[1].id: ir.fvar(f'{name}_in{n.id}_0'), n.args[2].id: ir.fvar(f'{name}_in{n.id}_1')}
+                      assume = []
+                      for nid, (lo, hi) in ((n.args[1].id, a), (n.args[2].id, b)):
+                          assume += [ir.fcmp('fp.leq', ir.fconst(lo), xs[nid]), ir.fcmp('fp.leq', xs[nid], ir.fconst(hi))]
+                      res = ir.rite(ir.fcmp('fp.lt', xs[c.args[0].id], xs[c.args[1].id]), xs[n.args[1].id], xs[n.args[2].id])
+                      claim = ir.band(ir.fcmp('fp.leq', ir.fconst(r[0]), res), ir.fcmp('fp.leq', res, ir.fconst(r[1])))
+                      lemmas.append((f'min/max on {[a, b]} stays in [{r[0]!r}, {r[1]!r}]', assume, claim))
           if r is not None:
               for lo, hi in refine.get(n.id, []):
                   r = (max(r[0], lo), min(r[1], hi))
